@@ -1,4 +1,5 @@
-"""C07 source translation: the scanner functions of myst_parser/parsers/options.py -> coq/Gen/OptSrc.v.
+"""C07 source translation: the scanner functions and the generator _tokenize of myst_parser/parsers/options.py
+-> coq/Gen/OptSrc.v  (the generator: class TokFn below, writer monad `wres` of coq/Opt/OptModel.v).
 
 A fail-closed walker for the idioms of options.py (own walker, in the spirit of gen/py2coq.py): every scanner function is
 translated statement by statement into the `res` monad of coq/Base/Res.v over the hand-modelled StreamBuffer primitives
@@ -20,7 +21,8 @@ translated statement by statement into the `res` monad of coq/Base/Res.v over th
 Erased (checked to be used nowhere else): variables holding marks (`start_mark`, `end_mark`, results of
 get_position()), the `state` parameter and `state.has_comments = True`.
 Anything else raises Untranslatable (tie broken).  The hand-written model stays the subject of the theorems; coq/Opt/OptSrcProofs.v
-proves `<fn>_src = <fn>` for every translated function.
+proves `<fn>_src = <fn>` for every translated function (coq/Opt/OptSrcCompose.v: the composite scanners, the _tokenize loop,
+options_to_items_src = options_to_items).
 """
 from __future__ import annotations
 
